@@ -625,39 +625,70 @@ def _raise_discipline(prog: Program, res: Result):
 
 
 def _exhaustive_else(prog: Program, fi, r: ast.Raise):
-    # find the if-chain whose final else contains r
+    """is the raise reached only when one subject compared equal to NO member of its enum?  Accepted shapes: the final else of
+    an if / elif chain, and the statement after a run of ifs whose bodies all end in return / raise / continue / break (the same
+    chain written without else) - or any mixture of the two."""
+    blocks = {}  # id(stmt) -> (block list, index, owner node, field)
     for n in ast.walk(fi.node):
-        if isinstance(n, ast.If):
-            chain = []
-            cur = n
-            while True:
-                chain.append(cur.test)
-                if len(cur.orelse) == 1 and isinstance(cur.orelse[0], ast.If):
-                    cur = cur.orelse[0]
-                else:
-                    break
-            if any(r is x for s in cur.orelse for x in ast.walk(s)) and len(chain) > 1:
-                members = set()
-                enum = None
-                subj = None
-                for t in chain:
-                    if isinstance(t, ast.Compare) and len(t.ops) == 1 and isinstance(t.ops[0], ast.Eq):
-                        c = attr_chain(t.comparators[0])
-                        s = ast.unparse(t.left)
-                        if c and "." in c and (subj is None or subj == s):
-                            subj = s
-                            enum = c.split(".")[0]
-                            members.add(c.split(".")[1])
-                        else:
-                            return False, "chain is not a comparison of one subject with enum members"
-                    else:
-                        return False, "chain is not a comparison of one subject with enum members"
-                rr = prog.resolve_name(fi.module, enum)
-                if rr and rr[0] == "class":
-                    allm = set(prog.enum_members(rr[1].qualname))
-                    if members == allm:
-                        return True, f"{enum}: {sorted(members)}"
-                    return False, f"{enum} members not handled: {sorted(allm - members)}"
+        for fld in ("body", "orelse", "finalbody"):
+            b = getattr(n, fld, None)
+            if isinstance(b, list):
+                for i, s_ in enumerate(b):
+                    if isinstance(s_, ast.stmt):
+                        blocks[id(s_)] = (b, i, n, fld)
+
+    def ends(body):
+        return bool(body) and isinstance(body[-1], (ast.Return, ast.Raise, ast.Continue, ast.Break))
+
+    def chain_tests(if_node):
+        """tests of an if / elif chain whose every branch ends the block, without a final else; None otherwise"""
+        out, cur = [], if_node
+        while True:
+            if not ends(cur.body):
+                return None
+            out.append(cur.test)
+            if len(cur.orelse) == 1 and isinstance(cur.orelse[0], ast.If):
+                cur = cur.orelse[0]
+            elif not cur.orelse:
+                return out
+            else:
+                return None
+
+    tests = []
+    node = r
+    while id(node) in blocks:
+        blk, i, owner, fld = blocks[id(node)]
+        for prev in reversed(blk[:i]):
+            ct = chain_tests(prev) if isinstance(prev, ast.If) else None
+            if ct is None:
+                break
+            tests.extend(ct)
+        if isinstance(owner, ast.If) and fld == "orelse":
+            tests.append(owner.test)
+            node = owner
+        else:
+            break
+    if len(tests) < 2:
+        return False, "not in the else of an enum chain"
+    members = set()
+    enum = None
+    subj = None
+    for t in tests:
+        if isinstance(t, ast.Compare) and len(t.ops) == 1 and isinstance(t.ops[0], ast.Eq):
+            c = attr_chain(t.comparators[0])
+            s = ast.unparse(t.left)
+            if c and "." in c and (subj is None or subj == s) and (enum is None or enum == c.split(".")[0]):
+                subj = s
+                enum = c.split(".")[0]
+                members.add(c.split(".")[1])
+                continue
+        return False, "chain is not a comparison of one subject with enum members"
+    rr = prog.resolve_name(fi.module, enum)
+    if rr and rr[0] == "class":
+        allm = set(prog.enum_members(rr[1].qualname))
+        if members == allm:
+            return True, f"{enum}: {sorted(members)}"
+        return False, f"{enum} members not handled: {sorted(allm - members)}"
     return False, "not in the else of an enum chain"
 
 
